@@ -35,6 +35,10 @@ def multi_param_script(rng):
             e += rng.choice([" + ", " - ", " * "]) + t
         form = rng.choice(["Sgate(%s) | 0", "Dgate(0.5, %s) | [0, 1]", "Rgate(phi=%s) | 2", "BSgate(%s, r=1) | [1, 0]"])
         lines.append(form % e)
+        if rng.random() < 0.25:
+            # a template parameter and a measured register in ONE argument (the classification of the argument must not depend on
+            # which symbol a set yields first)
+            lines.append(rng.choice(["Zgate({r1} * q0) | 1", "Zgate(q3 + 2 * {x2}, k={r1} - q0) | 1", "Kgate(k={x2} * q12 * q0) | 2"]))
     return "\n".join(lines) + "\n"
 
 
